@@ -1,4 +1,5 @@
 import GdVerif.Lemmas.VarInt
+import GdVerif.Lemmas.Unreal2Safe
 /-
   C17 — Packet reader and wire codecs conform to a reference model.
 
@@ -28,6 +29,7 @@ theorem C17_position_within_packet (e : Endian) (ops : List ROp) (b : Buf) :
       · exact Safe.bind (safe_switchEndianChunk _) fun _ => Safe.pure _
       · exact Safe.bind safe_getVarint fun _ => Safe.pure _
       · exact Safe.bind safe_getString fun _ => Safe.pure _
+      · exact Safe.bind Unreal2.safe_readU2Str fun _ => Safe.pure _
     have hp := hsafe b
     simp only [ROp.afterAll, ROp.after]
     cases hx : op.exec e b with
